@@ -70,6 +70,12 @@ Script ==
          << <<"gen", 1, Up(1)>>, <<"gen", 1, Up(2)>>, <<"dlv", 2, 1>>, <<"dlv", 2, 2>>, <<"gen", 2, [c |-> "rmv", k |-> 1]>>,
             <<"dlv", 3, 1>>, <<"dlv", 3, 2>>, <<"gen", 3, Up(2)>>, <<"gen", 3, [c |-> "rm", k |-> 2]>>,
             <<"dlv", 4, 3>>, <<"dlv", 4, 4>>, <<"dlv", 4, 5>> >>
+    \* MISUSE (replicas 1 and 2 share actor 1), Map<K,Orswot>: the nested half of validate_merge.  Replica 1 holds
+    \* k -> {m1} witnessed by {1:1, 3:1}; replica 2 spends dot 1:1 on m2 under the same key: once its entry clock
+    \* is concurrent with replica 1's (one more edit), the nested Orswot::validate_merge must flag the reused dot
+    [] ScriptName = "nested_reused_dot" ->
+         << <<"gen", 1, Up(1)>>, <<"gen", 3, Up(1)>>, <<"dlv", 1, 2>>,
+            <<"gen", 2, [c |-> "up", k |-> 1, sub |-> [c |-> "add", m |-> 2]]>> >>
 ScriptInit == InitAfter(Script)
 
 \* JSON-friendly renderings: partial functions over Keys become total sequences of 0/1-element tuples
